@@ -39,6 +39,7 @@ type Stats struct {
 	SolverSec float64
 	Restarts  int
 	Disagree  int
+	Fallback  int // queries the primary solver answered unknown and another solver decided
 }
 
 func (a *Stats) Add(b Stats) {
@@ -50,6 +51,7 @@ func (a *Stats) Add(b Stats) {
 	a.SolverSec += b.SolverSec
 	a.Restarts += b.Restarts
 	a.Disagree += b.Disagree
+	a.Fallback += b.Fallback
 }
 
 type proc struct {
@@ -482,6 +484,34 @@ func (s *Solver) CheckOneShot(pc []*Term, extra *Term, vars []*Term) (Result, ma
 		m = s.Model(vars)
 	}
 	return r, m
+}
+
+// FallbackKinds are the solvers tried, each from a fresh process and a fresh state, when the
+// primary solver answers unknown (different engines decide different multiplication-heavy
+// queries). A sat verdict comes with that solver's model; every counterexample is replayed
+// natively before it is reported, an unsat verdict is trusted like the primary's.
+var FallbackKinds = []string{"z3-new", "cvc5"}
+
+// CheckFallback decides pc ∧ extra with the fallback solvers, one after another.
+func (s *Solver) CheckFallback(pc []*Term, extra *Term, vars []*Term) (Result, map[string]uint64) {
+	for _, kind := range FallbackKinds {
+		if s.p != nil && s.p.name == kind {
+			continue
+		}
+		f, err := NewSolver(kind, "", s.TimeoutMs)
+		if err != nil {
+			continue
+		}
+		t0 := time.Now()
+		r, m := f.CheckOneShot(pc, extra, vars)
+		f.Close()
+		s.Stats.SolverSec += time.Since(t0).Seconds()
+		if r != Unknown {
+			s.Stats.Fallback++
+			return r, m
+		}
+	}
+	return Unknown, nil
 }
 
 // CheckWith checks satisfiability of the current stack plus extra, leaving the stack unchanged.
